@@ -56,6 +56,18 @@ func (t *fnTr) kindOfType(ty types.Type) string {
 		return ""
 	}
 	if n, ok := ty.(*types.Named); ok {
+		if n.Obj().Pkg() != nil && n.Obj().Pkg().Path() == "encoding/xml" {
+			switch n.Obj().Name() {
+			case "Name":
+				return "xname"
+			case "Attr":
+				return "xattr"
+			case "StartElement":
+				return "xstart"
+			case "CharData":
+				return "str"
+			}
+		}
 		if _, isS := n.Underlying().(*types.Struct); isS && n.Obj().Pkg() == t.p.pkg {
 			return "rec:" + n.Obj().Name()
 		}
@@ -112,6 +124,8 @@ func (t *fnTr) kindOfType(ty types.Type) string {
 			return "bools"
 		case k == "val":
 			return "vlist"
+		case k == "xattr":
+			return "xattrs"
 		case k == "vmap":
 			return "vmaps" // Maps = []Map
 		case strings.HasPrefix(k, "rec:"):
@@ -122,6 +136,9 @@ func (t *fnTr) kindOfType(ty types.Type) string {
 			return "strs"
 		}
 	case *types.Pointer:
+		if n, ok := u.Elem().(*types.Named); ok && n.Obj().Pkg() != nil && n.Obj().Pkg().Path() == "encoding/xml" && n.Obj().Name() == "Decoder" {
+			return "xdecoder" // the tokens still to come and how the stream ends (state)
+		}
 		k := t.kindOfType(u.Elem())
 		if strings.HasPrefix(k, "rec:") {
 			return k
@@ -146,6 +163,16 @@ func fnCoqType(k string) string {
 		return "(list rev)"
 	case k == "writer":
 		return "str"
+	case k == "xdecoder":
+		return "xdecoder"
+	case k == "xtok":
+		return "(option tok)"
+	case k == "xname":
+		return "xname"
+	case k == "xattr":
+		return "xattr"
+	case k == "xattrs":
+		return "(list xattr)"
 	case k == "byte":
 		return "ascii"
 	case k == "str":
@@ -210,6 +237,7 @@ type lvar struct {
 	rangeOf string       // range index variable: the text of the ranged expression (X[i] is then the element)
 	isState bool         // an out-parameter of a void function
 	aliased bool         // a slice local that is used other than by index, len, range and return (element stores would be shared)
+	nilFlag *lvar        // a map local declared without a value (nil): the boolean local that says it has been made since
 }
 
 type extern struct {
@@ -226,6 +254,8 @@ type fnTr struct {
 	guards  []string
 	fresh   int
 	pairMemo int // 0 unknown, 1 pair result, 2 not
+	curRest  []ast.Stmt // the statements that follow the one being translated, in its list
+	parents  map[ast.Node]ast.Node
 	tables  map[types.Object]string
 	externs *[]extern
 	structs map[string]*types.Struct
@@ -453,6 +483,32 @@ func (t *fnTr) expr(e ast.Expr) string {
 			}
 			return "(mk_" + k[4:] + " " + strings.Join(args, " ") + ")"
 		}
+		if k == "vmap" {
+			// map[string]interface{}{k1: v1, ...}: the entries set in order (a repeated constant key is a compile error in Go)
+			out := "([] : entries)"
+			for _, el := range x.Elts {
+				kv, ok := el.(*ast.KeyValueExpr)
+				if !ok {
+					t.unsupported(e, "composite literal")
+				}
+				out = "(set " + t.expr(kv.Key) + " " + t.boxVal(kv.Value) + " " + out + ")"
+			}
+			return out
+		}
+		if k == "vlist" || k == "strs" {
+			var els []string
+			for _, el := range x.Elts {
+				if _, isKV := el.(*ast.KeyValueExpr); isKV {
+					t.unsupported(e, "keyed composite literal")
+				}
+				if k == "vlist" {
+					els = append(els, t.boxVal(el))
+				} else {
+					els = append(els, t.expr(el))
+				}
+			}
+			return "([" + strings.Join(els, "; ") + "] : " + fnCoqType(k) + ")"
+		}
 		t.unsupported(e, "composite literal")
 	case *ast.BinaryExpr:
 		k := t.kindOfExpr(x.X)
@@ -650,6 +706,16 @@ func (t *fnTr) expr(e ast.Expr) string {
 		if x.Type == nil {
 			t.unsupported(e, "type switch guard outside a switch")
 		}
+		if lv := t.lvarOf(x.X); lv != nil && lv.kind == "xtok" {
+			// t.(xml.CharData): the character data of the token (a panic for any other token)
+			if types.ExprString(x.Type) != "xml.CharData" {
+				t.unsupported(e, "assertion on a token other than to xml.CharData / xml.StartElement (the latter as a definition)")
+			}
+			t.fresh++
+			n := fmt.Sprintf("as%d", t.fresh)
+			t.guards = append(t.guards, "ASSERT:"+lv.name+":Some (TChar "+n+")")
+			return n
+		}
 		pat, _ := t.assertPat(t.p.info.Types[x.Type].Type, "")
 		if pat == "" {
 			t.unsupported(e, "type assertion to this type")
@@ -660,11 +726,24 @@ func (t *fnTr) expr(e ast.Expr) string {
 		t.guards = append(t.guards, "ASSERT:"+v+":"+pat+n)
 		return n
 	case *ast.SelectorExpr:
-		if id, ok := x.X.(*ast.Ident); ok {
-			if lv, ok := t.locals[t.p.info.Uses[id]]; ok && lv.fields != nil {
-				if f, ok := lv.fields[x.Sel.Name]; ok {
-					return f.name
-				}
+		if f := t.lvarOf(x); f != nil {
+			return f.name
+		}
+		// xml.Name: n.Local / n.Space ; xml.Attr: a.Name / a.Value
+		switch t.kindOfExpr(x.X) {
+		case "xname":
+			switch x.Sel.Name {
+			case "Local":
+				return "(xlocal " + t.expr(x.X) + ")"
+			case "Space":
+				return "(xspace " + t.expr(x.X) + ")"
+			}
+		case "xattr":
+			switch x.Sel.Name {
+			case "Name":
+				return "(aname " + t.expr(x.X) + ")"
+			case "Value":
+				return "(avalue " + t.expr(x.X) + ")"
 			}
 		}
 		// a field of a struct-valued expression (xs[i].f): the record projection
@@ -722,6 +801,8 @@ var callTable = map[string]string{
 	"strings.HasPrefix": "go_has_prefix",
 	"strings.Split":     "go_split",
 	"strings.Index":     "go_index",
+	"strings.Replace":   "go_replace",
+	"strings.Trim":      "go_trim",
 	"bytes.Count":       "bytes_count",
 	"bytes.Replace":     "bytes_replace",
 	"math.IsNaN":        "flt_is_nan",
@@ -1128,6 +1209,10 @@ func (t *fnTr) assigned(list []ast.Stmt) []*lvar {
 		if lv != nil && !seen[lv] {
 			seen[lv] = true
 			out = append(out, lv)
+			if lv.nilFlag != nil && !seen[lv.nilFlag] {
+				seen[lv.nilFlag] = true
+				out = append(out, lv.nilFlag)
+			}
 		}
 	}
 	target := func(e ast.Expr, define bool) {
@@ -1148,13 +1233,11 @@ func (t *fnTr) assigned(list []ast.Stmt) []*lvar {
 				add(lv)
 			}
 		case *ast.SelectorExpr:
-			if id, ok := l.X.(*ast.Ident); ok {
-				if lv, ok := t.locals[t.p.info.Uses[id]]; ok && lv.fields != nil {
-					add(lv.fields[l.Sel.Name])
-				}
-			}
+			add(t.lvarOf(l))
 		case *ast.IndexExpr:
-			if id, ok := l.X.(*ast.Ident); ok {
+			if ta, ok := unparen(l.X).(*ast.TypeAssertExpr); ok {
+				add(t.lvarOf(ta.X))
+			} else if id, ok := l.X.(*ast.Ident); ok {
 				if lv, ok := t.locals[t.p.info.Uses[id]]; ok {
 					add(lv)
 				}
@@ -1183,6 +1266,26 @@ func (t *fnTr) assigned(list []ast.Stmt) []*lvar {
 								add(wl)
 							}
 						}
+						if se, ok := c.Fun.(*ast.SelectorExpr); ok && se.Sel.Name == "Token" && len(c.Args) == 0 {
+							if dl := t.lvarOf(se.X); dl != nil && dl.kind == "xdecoder" {
+								add(dl)
+							}
+						}
+						// a recursive call used for its results also threads the state parameters
+						if t.isSelfCall(c) {
+							for _, sv := range t.state {
+								add(sv)
+							}
+						}
+					}
+				}
+			case *ast.RangeStmt:
+				if x.Tok == token.ASSIGN {
+					if x.Key != nil {
+						target(x.Key, false)
+					}
+					if x.Value != nil {
+						target(x.Value, false)
 					}
 				}
 			case *ast.IncDecStmt:
@@ -1205,6 +1308,31 @@ func (t *fnTr) assigned(list []ast.Stmt) []*lvar {
 		})
 	}
 	return out
+}
+
+// selfArgs: the arguments of a recursive call; state parameters must be passed through unchanged.
+func (t *fnTr) selfArgs(c *ast.CallExpr) []string {
+	t.recurs = true
+	sig := t.self.Type().(*types.Signature)
+	if sig.Variadic() || len(c.Args) != sig.Params().Len() {
+		t.unsupported(c, "recursive call form")
+	}
+	var args []string
+	for i, a := range c.Args {
+		if sv, isState := t.stateAt[i]; isState {
+			if t.lvarOf(a) != sv {
+				t.unsupported(c, "recursive call that does not pass its state parameters through")
+			}
+			args = append(args, sv.name)
+			continue
+		}
+		if t.kindOfType(sig.Params().At(i).Type()) == "val" {
+			args = append(args, t.boxVal(a))
+		} else {
+			args = append(args, t.expr(a))
+		}
+	}
+	return args
 }
 
 func (t *fnTr) isSelfCall(c *ast.CallExpr) bool {
@@ -1405,16 +1533,27 @@ func (t *fnTr) errExpr(e ast.Expr) (string, bool) {
 	return "", false
 }
 
-// lvarOf: the local an identifier, or a field selection on a struct local / receiver, stands for.
+// lvarOf: the local an identifier, or a (possibly nested: v.Name.Local) field selection on a struct local / receiver,
+// stands for.  Fields of nested structs are registered under their dotted path.
 func (t *fnTr) lvarOf(e ast.Expr) *lvar {
 	switch x := unparen(e).(type) {
 	case *ast.Ident:
 		return t.locals[t.p.info.Uses[x]]
 	case *ast.SelectorExpr:
-		if id, ok := x.X.(*ast.Ident); ok {
-			if lv, ok := t.locals[t.p.info.Uses[id]]; ok && lv.fields != nil {
-				return lv.fields[x.Sel.Name]
+		path := x.Sel.Name
+		cur := x.X
+		for {
+			switch y := unparen(cur).(type) {
+			case *ast.SelectorExpr:
+				path = y.Sel.Name + "." + path
+				cur = y.X
+				continue
+			case *ast.Ident:
+				if lv, ok := t.locals[t.p.info.Uses[y]]; ok && lv.fields != nil {
+					return lv.fields[path]
+				}
 			}
+			return nil
 		}
 	}
 	return nil
@@ -1493,6 +1632,14 @@ func (t *fnTr) retExpr(x *ast.ReturnStmt) string {
 			t.unsupported(x, "error result of this form")
 		}
 		return t.wrap(mark, "Ret "+t.withState("("+vs[0]+", "+vs[1]+", "+e+")"))
+	}
+	if len(x.Results) == 1 {
+		if c, ok := x.Results[0].(*ast.CallExpr); ok && t.isSelfCall(c) {
+			// return self(...): the recursive call's results (and state) are this call's
+			mark := len(t.guards)
+			args := t.selfArgs(c)
+			return t.wrap(mark, "bindr (fn_"+t.self.Name()+" fuel_ st "+strings.Join(args, " ")+") (fun r_ => Ret r_)")
+		}
 	}
 	if len(t.resKind) == 2 && t.resKind[1] == "err" && len(x.Results) == 1 {
 		if c, ok := x.Results[0].(*ast.CallExpr); ok {
@@ -1577,6 +1724,7 @@ func (t *fnTr) stmts(list []ast.Stmt, end func() string) string {
 	}
 	s, rest := list[0], list[1:]
 	next := func() string { return t.stmts(rest, end) }
+	t.curRest = rest
 	switch x := s.(type) {
 	case *ast.BlockStmt:
 		return t.stmts(append(append([]ast.Stmt{}, x.List...), rest...), end)
@@ -1616,6 +1764,12 @@ func (t *fnTr) stmts(list []ast.Stmt, end func() string) string {
 				}
 				lv := t.newLocal(obj, id.Name, k)
 				out += t.wrap(mark, "let "+lv.name+" : "+fnCoqType(k)+" := "+val+" in ")
+				if (k == "vmap" || k == "bmap") && i >= len(vs.Values) {
+					// var m map[...]...: nil until made; a store into a nil map panics (reads of it do not)
+					fl := t.newLocal(nil, id.Name+"_made", "bool")
+					lv.nilFlag = fl
+					out += "let " + fl.name + " : bool := false in "
+				}
 			}
 		}
 		return out + next()
@@ -1783,6 +1937,13 @@ func (t *fnTr) assign(x *ast.AssignStmt, next func() string) string {
 					return "let '(" + va + ", " + vb + ", " + bl.name + ", " + rl.name + ") := go_read " + rl.name + " " + bl.name + " in\n  " + next()
 				}
 			}
+			// t, err := p.Token() on the *xml.Decoder parameter
+			if se, ok := c.Fun.(*ast.SelectorExpr); ok && se.Sel.Name == "Token" && len(c.Args) == 0 {
+				if dl := t.lvarOf(se.X); dl != nil && dl.kind == "xdecoder" {
+					va, vb := bind(a, "xtok"), bind(b, "errv")
+					return "let '(" + va + ", " + vb + ", " + dl.name + ") := go_token " + dl.name + " in\n  " + next()
+				}
+			}
 			// _, werr := w.Write(p) on a writer: the bytes are appended, the error is nil (the writer is a bytes.Buffer)
 			if se, ok := c.Fun.(*ast.SelectorExpr); ok && se.Sel.Name == "Write" && len(c.Args) == 1 {
 				if wl := t.lvarOf(se.X); wl != nil && wl.kind == "writer" {
@@ -1796,28 +1957,21 @@ func (t *fnTr) assign(x *ast.AssignStmt, next func() string) string {
 				}
 			}
 		}
-		// v, err := self(...) for a recursive function returning (T, error) without out-parameters
+		// v, err := self(...) for a recursive function returning (T, error); state parameters (a reader / decoder the
+		// function consumes from) must be passed through and come back with the results
 		if c, isCall := x.Rhs[0].(*ast.CallExpr); isCall && t.isSelfCall(c) {
-			if len(t.state) != 0 || len(t.resKind) != 2 || t.resKind[1] != "err" || strings.HasPrefix(t.resKind[0], "ptr:") {
+			if len(t.resKind) != 2 || t.resKind[1] != "err" || strings.HasPrefix(t.resKind[0], "ptr:") || t.pairResult() {
 				t.unsupported(x, "recursive call of a function with this signature used for its results")
 			}
-			t.recurs = true
 			mark := len(t.guards)
-			sig := t.self.Type().(*types.Signature)
-			if sig.Variadic() || len(c.Args) != sig.Params().Len() {
-				t.unsupported(x, "recursive call form")
-			}
-			var args []string
-			for i, a := range c.Args {
-				if t.kindOfType(sig.Params().At(i).Type()) == "val" {
-					args = append(args, t.boxVal(a))
-				} else {
-					args = append(args, t.expr(a))
-				}
-			}
+			args := t.selfArgs(c)
 			va, vb := bind(a, t.resKind[0]), bind(b, "errv")
 			z := fnZero(t.resKind[0])
-			return t.wrap(mark, "bindr (fn_"+t.self.Name()+" fuel_ st "+strings.Join(args, " ")+")\n  (fun rr_ => match rr_ with Panic => Crash | _ => let '("+va+", "+vb+") := match rr_ with Ok v => (v, None) | Err e => ("+z+", Some e) | Panic => ("+z+", None) end in\n  "+next()+" end)")
+			rpat := "rr_"
+			if len(t.state) > 0 {
+				rpat = "'(rr_, " + tupleVal(t.state) + ")"
+			}
+			return t.wrap(mark, "bindr (fn_"+t.self.Name()+" fuel_ st "+strings.Join(args, " ")+")\n  (fun "+rpat+" => match rr_ with Panic => Crash | _ => let '("+va+", "+vb+") := match rr_ with Ok v => (v, None) | Err e => ("+z+", Some e) | Panic => ("+z+", None) end in\n  "+next()+" end)")
 		}
 		// v, err := f(...) with f another function of the package returning (T, error)
 		if c, isCall := x.Rhs[0].(*ast.CallExpr); isCall {
@@ -1893,6 +2047,23 @@ func (t *fnTr) assign(x *ast.AssignStmt, next func() string) string {
 		if _, isG := t.vars[obj]; isG {
 			t.unsupported(x, "assignment to a package-level variable in a pure function")
 		}
+		// tt := t.(xml.StartElement) on a token: a struct local with the fields Name (an xml.Name) and Attr
+		if define {
+			if ta, ok := x.Rhs[0].(*ast.TypeAssertExpr); ok && ta.Type != nil {
+				if tl := t.lvarOf(ta.X); tl != nil && tl.kind == "xtok" {
+					if types.ExprString(ta.Type) != "xml.StartElement" {
+						t.unsupported(x, "assertion on a token other than to xml.CharData / xml.StartElement")
+					}
+					lv := &lvar{name: "l_" + l.Name, kind: "xstart", fields: map[string]*lvar{}}
+					t.locals[obj] = lv
+					fn := t.newLocal(nil, l.Name+"_Name", "xname")
+					fa := t.newLocal(nil, l.Name+"_Attr", "xattrs")
+					lv.fields["Name"], lv.fields["Attr"] = fn, fa
+					lv.forder = []string{"Name", "Attr"}
+					return "(match " + tl.name + " with Some (TStart " + fn.name + " " + fa.name + ") =>\n  " + next() + "\n  | _ => Crash end)"
+				}
+			}
+		}
 		// struct local: p := new(T) / &T{}
 		if define {
 			if c, ok := x.Rhs[0].(*ast.CallExpr); ok {
@@ -1934,32 +2105,60 @@ func (t *fnTr) assign(x *ast.AssignStmt, next func() string) string {
 		if !ok || lv.fields != nil || lv.elemOf != nil {
 			t.unsupported(x, "assignment to "+l.Name)
 		}
+		flag := ""
 		switch {
 		case lv.kind == "val":
 			val = t.boxVal(x.Rhs[0])
 		case t.p.info.Types[x.Rhs[0]].IsNil() && (lv.kind == "vlist" || lv.kind == "strs" || lv.kind == "vmap"):
 			val = fnZero(lv.kind) // a nil slice / map and an empty one are the same model value
+			if lv.nilFlag != nil {
+				flag = "let " + lv.nilFlag.name + " := false in "
+			}
 		default:
 			val = t.expr(x.Rhs[0])
+			if lv.nilFlag != nil {
+				isMade := false
+				switch r := x.Rhs[0].(type) {
+				case *ast.CallExpr:
+					if f, ok := r.Fun.(*ast.Ident); ok && f.Name == "make" {
+						isMade = true
+					}
+				case *ast.CompositeLit:
+					isMade = true
+				}
+				if !isMade {
+					t.unsupported(x, "assignment to a map variable declared nil from something other than make / a literal / nil")
+				}
+				flag = "let " + lv.nilFlag.name + " := true in "
+			}
 		}
-		return t.wrap(mark, "let "+lv.name+" := "+val+" in\n  "+next())
-	case *ast.SelectorExpr: // p.f = e on a struct local
-		id, ok := l.X.(*ast.Ident)
-		if !ok {
-			t.unsupported(x, "assignment target")
+		if (lv.kind == "vmap" || lv.kind == "val") && !t.p.info.Types[x.Rhs[0]].IsNil() {
+			t.freezeCheck(x, x.Rhs[0])
 		}
-		obj := t.p.info.Uses[id]
-		lv, ok := t.locals[obj]
-		if !ok || lv.fields == nil || lv.fields[l.Sel.Name] == nil {
+		return t.wrap(mark, "let "+lv.name+" := "+val+" in "+flag+"\n  "+next())
+	case *ast.SelectorExpr: // p.f = e (or v.Name.Local = e) on a struct local
+		fl := t.lvarOf(l)
+		if fl == nil {
 			t.unsupported(x, "field assignment on something other than a struct local")
 		}
-		if t.escaped[obj] {
+		var base ast.Expr = l
+		for {
+			se, ok := unparen(base).(*ast.SelectorExpr)
+			if !ok {
+				break
+			}
+			base = se.X
+		}
+		if id, ok := unparen(base).(*ast.Ident); ok && t.escaped[t.p.info.Uses[id]] {
 			t.unsupported(x, "field assignment through a pointer that has already been stored (aliasing)")
 		}
 		mark := len(t.guards)
 		val := t.expr(x.Rhs[0])
-		return t.wrap(mark, "let "+lv.fields[l.Sel.Name].name+" := "+val+" in\n  "+next())
+		return t.wrap(mark, "let "+fl.name+" := "+val+" in\n  "+next())
 	case *ast.IndexExpr: // m[k] = e on a local map
+		if ta, isTA := unparen(l.X).(*ast.TypeAssertExpr); isTA && ta.Type != nil {
+			return t.storeThroughAssert(x, l, ta, next)
+		}
 		id, ok := l.X.(*ast.Ident)
 		if !ok {
 			t.unsupported(x, "assignment target")
@@ -1990,6 +2189,10 @@ func (t *fnTr) assign(x *ast.AssignStmt, next func() string) string {
 		mark := len(t.guards)
 		k := t.expr(l.Index)
 		v := t.boxVal(x.Rhs[0])
+		t.freezeCheck(x, x.Rhs[0])
+		if lv.nilFlag != nil {
+			t.guards = append(t.guards, "if negb "+lv.nilFlag.name+" then Crash else") // assignment to entry in nil map
+		}
 		return t.wrap(mark, "let "+lv.name+" := set "+k+" "+v+" "+lv.name+" in\n  "+next())
 	}
 	t.unsupported(x, "assignment target")
@@ -2046,6 +2249,207 @@ func (t *fnTr) sliceShared(obj types.Object) bool {
 		return true
 	})
 	return shared
+}
+
+// storeThroughAssert: v.(map[string]interface{})[k] = e on an interface{} local v: v becomes the map with the entry set
+// (a panic when v does not hold a map).  Go updates the map object in place; the translation updates v alone, which is
+// the same as long as no other name for that object is read afterwards - checked: every local that v was taken from
+// (by range or assignment) is not mentioned after this statement.
+func (t *fnTr) storeThroughAssert(x *ast.AssignStmt, l *ast.IndexExpr, ta *ast.TypeAssertExpr, next func() string) string {
+	vl := t.lvarOf(ta.X)
+	vid, isId := unparen(ta.X).(*ast.Ident)
+	if vl == nil || !isId || vl.kind != "val" || t.kindOfType(t.p.info.Types[ta.Type].Type) != "vmap" {
+		t.unsupported(x, "store through a type assertion other than v.(map[string]interface{})[k] = e on an interface{} local")
+	}
+	vobj := t.p.info.Uses[vid]
+	sources := map[types.Object]bool{}
+	collect := func(e ast.Expr) {
+		ast.Inspect(e, func(m ast.Node) bool {
+			if id, ok := m.(*ast.Ident); ok {
+				if o := t.p.info.Uses[id]; o != nil && o != vobj {
+					if lv, ok := t.locals[o]; ok && (lv.kind == "vmap" || lv.kind == "val" || lv.kind == "vlist") {
+						sources[o] = true
+					}
+				}
+			}
+			return true
+		})
+	}
+	isV := func(e ast.Expr) bool {
+		id, ok := e.(*ast.Ident)
+		return ok && (t.p.info.Uses[id] == vobj || t.p.info.Defs[id] == vobj)
+	}
+	ast.Inspect(t.fn.Body, func(n ast.Node) bool {
+		switch y := n.(type) {
+		case *ast.AssignStmt:
+			for i, lh := range y.Lhs {
+				if isV(lh) {
+					if len(y.Rhs) == len(y.Lhs) {
+						collect(y.Rhs[i])
+					} else {
+						for _, r := range y.Rhs {
+							collect(r)
+						}
+					}
+				}
+			}
+		case *ast.RangeStmt:
+			if (y.Key != nil && isV(y.Key)) || (y.Value != nil && isV(y.Value)) {
+				collect(y.X)
+			}
+		}
+		return true
+	})
+	ast.Inspect(t.fn.Body, func(n ast.Node) bool {
+		if id, ok := n.(*ast.Ident); ok && sources[t.p.info.Uses[id]] && id.Pos() > x.End() {
+			t.unsupported(x, "store through a type assertion while another name of the map ("+id.Name+") is still used afterwards")
+		}
+		return true
+	})
+	mark := len(t.guards)
+	k := t.expr(l.Index)
+	v := t.boxVal(x.Rhs[0])
+	if len(t.guards) != mark {
+		t.unsupported(x, "partial operation in a store through a type assertion")
+	}
+	return "(match " + vl.name + " with VMap mm_ => let " + vl.name + " := VMap (set " + k + " " + v + " mm_) in\n  " + next() + "\n  | _ => Crash end)"
+}
+
+// freezeCheck: the statement s stores / assigns the value of e somewhere.  When e is a map local M of this function,
+// M and the stored value are the same object in Go, so a later store into M would be seen through the other name, which
+// the translation (values, no heap) cannot express.  Accepted only when no such store can follow:
+//   (a) the statements after s in its list contain no store into M and end in a return, or
+//   (b) no store into M stands after s in the function text, and M is declared inside every loop that contains s
+//       (a fresh map in every iteration).
+func (t *fnTr) freezeCheck(s ast.Stmt, e ast.Expr) {
+	id, ok := unparen(e).(*ast.Ident)
+	if !ok {
+		return
+	}
+	obj := t.p.info.Uses[id]
+	lv, ok := t.locals[obj]
+	if !ok || (lv.kind != "vmap" && lv.kind != "bmap") || !lv.ownedMap() {
+		return
+	}
+	storesInto := func(n ast.Node) bool {
+		found := false
+		ast.Inspect(n, func(m ast.Node) bool {
+			if as, ok := m.(*ast.AssignStmt); ok {
+				for _, l := range as.Lhs {
+					if ix, ok := l.(*ast.IndexExpr); ok {
+						if b, ok := ix.X.(*ast.Ident); ok && t.p.info.Uses[b] == obj {
+							found = true
+						}
+					}
+				}
+			}
+			return true
+		})
+		return found
+	}
+	// (a): walk outwards from s; the statements that follow it at every level up to the enclosing loop / function
+	if t.parents == nil {
+		t.parents = map[ast.Node]ast.Node{}
+		var stack []ast.Node
+		ast.Inspect(t.fn.Body, func(m ast.Node) bool {
+			if m == nil {
+				stack = stack[:len(stack)-1]
+				return true
+			}
+			if len(stack) > 0 {
+				t.parents[m] = stack[len(stack)-1]
+			}
+			stack = append(stack, m)
+			return true
+		})
+	}
+	okA := false
+	var cur ast.Node = s
+walk:
+	for {
+		par, ok := t.parents[cur]
+		if !ok {
+			okA = true // fell off the end of the function body: it returns
+			break
+		}
+		var list []ast.Stmt
+		switch pp := par.(type) {
+		case *ast.BlockStmt:
+			list = pp.List
+		case *ast.CaseClause:
+			list = pp.Body
+		case *ast.ForStmt, *ast.RangeStmt:
+			break walk // the next iteration may store into the map
+		default:
+			cur = par
+			continue
+		}
+		idx := -1
+		for i, st := range list {
+			if ast.Node(st) == cur {
+				idx = i
+			}
+		}
+		if idx < 0 {
+			break
+		}
+		following := list[idx+1:]
+		for _, r := range following {
+			if storesInto(r) {
+				break walk
+			}
+		}
+		if len(following) > 0 {
+			switch following[len(following)-1].(type) {
+			case *ast.ReturnStmt:
+				okA = true
+				break walk
+			case *ast.BranchStmt:
+				break walk
+			}
+		}
+		cur = par
+	}
+	if okA {
+		return
+	}
+	// (b)
+	later := false
+	ast.Inspect(t.fn.Body, func(m ast.Node) bool {
+		if as, ok := m.(*ast.AssignStmt); ok && as.Pos() > s.End() {
+			for _, l := range as.Lhs {
+				if ix, ok := l.(*ast.IndexExpr); ok {
+					if b, ok := ix.X.(*ast.Ident); ok && t.p.info.Uses[b] == obj {
+						later = true
+					}
+				}
+			}
+		}
+		return true
+	})
+	inOuterLoop := false
+	var stack []ast.Node
+	ast.Inspect(t.fn.Body, func(m ast.Node) bool {
+		if m == nil {
+			stack = stack[:len(stack)-1]
+			return true
+		}
+		if m == ast.Node(s) {
+			for _, anc := range stack {
+				switch anc.(type) {
+				case *ast.ForStmt, *ast.RangeStmt:
+					if !(obj.Pos() > anc.Pos() && obj.Pos() < anc.End()) {
+						inOuterLoop = true
+					}
+				}
+			}
+		}
+		stack = append(stack, m)
+		return true
+	})
+	if later || inOuterLoop {
+		t.unsupported(s, "the map "+id.Name+" is stored / assigned here and may be stored into afterwards (aliasing)")
+	}
 }
 
 // ownedMap: maps created by make in this function (parameters are never written: the translated functions are read-only).
@@ -2206,28 +2610,70 @@ func (t *fnTr) typeSwitch(x *ast.TypeSwitchStmt, rest []ast.Stmt, end func() str
 		bodies = append(bodies, nil)
 	}
 	mark := len(t.guards)
+	isTok := false
+	if lv := t.lvarOf(guard.X); lv != nil && lv.kind == "xtok" {
+		isTok = true
+	}
 	v := t.expr(guard.X)
 	return t.branching(x, rest, end, bodies, func(tr func([]ast.Stmt) string) string {
 		var sb strings.Builder
 		sb.WriteString("match " + v + " with")
 		var def []ast.Stmt
 		for _, c := range x.Body.List {
+			if cc := c.(*ast.CaseClause); cc.List == nil {
+				def = cc.Body
+			}
+		}
+		catchAll := false
+		for _, c := range x.Body.List {
 			cc := c.(*ast.CaseClause)
 			if cc.List == nil {
-				def = cc.Body
 				continue
+			}
+			if catchAll {
+				t.unsupported(cc, "type switch case after `case interface{}`")
 			}
 			var pats []string
 			for _, te := range cc.List {
-				pat, _ := t.assertPat(t.p.info.Types[te].Type, "_")
+				var pat string
+				switch {
+				case isTok:
+					switch types.ExprString(te) {
+					case "xml.StartElement":
+						pat = "Some (TStart _ _)"
+					case "xml.EndElement":
+						pat = "Some (TEnd _)"
+					case "xml.CharData":
+						pat = "Some (TChar _)"
+					case "xml.Comment":
+						pat = "Some (TComment _)"
+					case "xml.ProcInst":
+						pat = "Some (TProcInst _ _)"
+					case "xml.Directive":
+						pat = "Some (TDirective _)"
+					}
+				default:
+					if it, ok := t.p.info.Types[te].Type.Underlying().(*types.Interface); ok && it.NumMethods() == 0 && len(cc.List) == 1 {
+						// case interface{}: any non-nil value (the nil interface goes to the default clause)
+						sb.WriteString("\n  | VNil => " + tr(def) + "\n  | _ => " + tr(cc.Body))
+						catchAll = true
+						continue
+					}
+					pat, _ = t.assertPat(t.p.info.Types[te].Type, "_")
+				}
 				if pat == "" {
 					t.unsupported(te, "type switch case of this type")
 				}
 				pats = append(pats, pat)
 			}
-			sb.WriteString("\n  | " + strings.Join(pats, " | ") + " => " + tr(cc.Body))
+			if len(pats) > 0 {
+				sb.WriteString("\n  | " + strings.Join(pats, " | ") + " => " + tr(cc.Body))
+			}
 		}
-		sb.WriteString("\n  | _ => " + tr(def) + "\n  end")
+		if !catchAll {
+			sb.WriteString("\n  | _ => " + tr(def))
+		}
+		sb.WriteString("\n  end")
 		return t.wrap(mark, sb.String())
 	})
 }
@@ -2254,6 +2700,18 @@ func (t *fnTr) loop(s ast.Stmt, body *ast.BlockStmt, xs string, bindVars func() 
 }
 
 func (t *fnTr) rangeStmt(x *ast.RangeStmt, rest []ast.Stmt, end func() string) string {
+	if x.Tok == token.ASSIGN && t.kindOfExpr(x.X) == "vmap" && len(x.Body.List) == 1 {
+		// for k, v = range m { break }: some entry of the map (its first in iteration order), k and v unchanged when it is empty
+		if br, ok := x.Body.List[0].(*ast.BranchStmt); ok && br.Tok == token.BREAK && br.Label == nil {
+			kl, vl := t.lvarOf(x.Key), t.lvarOf(x.Value)
+			if kl == nil || vl == nil || kl.kind != "str" || vl.kind != "val" {
+				t.unsupported(x, "range with = into something other than a string and an interface{} local")
+			}
+			mark := len(t.guards)
+			m := t.expr(x.X)
+			return t.wrap(mark, "let '("+kl.name+", "+vl.name+") := match "+m+" with (k_, v_) :: _ => (k_, v_) | [] => ("+kl.name+", "+vl.name+") end in\n  "+t.stmts(rest, end))
+		}
+	}
 	if x.Tok != token.DEFINE {
 		t.unsupported(x, "range without :=")
 	}
@@ -2317,6 +2775,26 @@ func (t *fnTr) rangeStmt(x *ast.RangeStmt, rest []ast.Stmt, end func() string) s
 		out = withIndex("vmap", "entries")
 	case "vmap":
 		out = t.loop(x, x.Body, xs, func() string { return "'(" + name(x.Key, "str") + ", " + name(x.Value, "val") + ")" }, "(str * value)", rest, end)
+	case "xattrs":
+		// for _, v := range attrs: v is a COPY of the attribute (a struct): one local per field, assignable in the body
+		if !isBlank(x.Key) {
+			t.unsupported(x, "range over attributes with an index variable")
+		}
+		out = t.loop(x, x.Body, xs, func() string {
+			vid, ok := x.Value.(*ast.Ident)
+			if !ok || vid.Name == "_" {
+				return "_"
+			}
+			obj := t.p.info.Defs[vid]
+			lv := &lvar{name: "l_" + vid.Name, kind: "xattr", fields: map[string]*lvar{}}
+			t.locals[obj] = lv
+			sp := t.newLocal(nil, vid.Name+"_Name_Space", "str")
+			lo := t.newLocal(nil, vid.Name+"_Name_Local", "str")
+			va := t.newLocal(nil, vid.Name+"_Value", "str")
+			lv.fields["Name.Space"], lv.fields["Name.Local"], lv.fields["Value"] = sp, lo, va
+			lv.forder = []string{"Name.Space", "Name.Local", "Value"}
+			return "'(Build_xattr (Build_xname " + sp.name + " " + lo.name + ") " + va.name + ")"
+		}, "xattr", rest, end)
 	case "bmap":
 		// the entries in list order, which stands for the (arbitrary) hash-iteration order of the run
 		out = t.loop(x, x.Body, xs, func() string { return "'(" + name(x.Key, "str") + ", " + name(x.Value, "bool") + ")" }, "(str * bool)", rest, end)
@@ -2340,7 +2818,7 @@ func (t *fnTr) forStmt(x *ast.ForStmt, rest []ast.Stmt, end func() string) strin
 		// Read on it), so 1 + the length of the schedule bounds the number of iterations
 		var rl *lvar
 		for _, sv := range t.state {
-			if sv.kind == "reader" {
+			if sv.kind == "reader" || sv.kind == "xdecoder" {
 				rl = sv
 			}
 		}
@@ -2348,8 +2826,8 @@ func (t *fnTr) forStmt(x *ast.ForStmt, rest []ast.Stmt, end func() string) strin
 		isRead := false
 		if first != nil && len(first.Rhs) == 1 {
 			if c, ok := first.Rhs[0].(*ast.CallExpr); ok {
-				if se, ok := c.Fun.(*ast.SelectorExpr); ok && se.Sel.Name == "Read" {
-					if rid, ok := se.X.(*ast.Ident); ok && rl != nil && t.locals[t.p.info.Uses[rid]] == rl {
+				if se, ok := c.Fun.(*ast.SelectorExpr); ok && (se.Sel.Name == "Read" || se.Sel.Name == "Token") {
+					if rid, ok := se.X.(*ast.Ident); ok && rl != nil && t.locals[t.p.info.Uses[rid]] == rl && (se.Sel.Name == "Read") == (rl.kind == "reader") {
 						isRead = true
 					}
 				}
@@ -2366,7 +2844,11 @@ func (t *fnTr) forStmt(x *ast.ForStmt, rest []ast.Stmt, end func() string) strin
 		b := t.stmts(x.Body.List, t.loopEnd)
 		t.inLoop, t.loopEnd, t.breakEnd = savedIn, savedEnd, savedBreak
 		st := tupleType(as)
-		return "bindc (S := " + st + ") (for_loop (S (length " + rl.name + ")) (fun (st_ : " + st + ") => let " + tuplePat(as) + " := st_ in\n    (" +
+		fuelOf := "(length " + rl.name + ")"
+		if rl.kind == "xdecoder" {
+			fuelOf = "(length (fst " + rl.name + "))" // every iteration consumes a token, or returns at the end of the stream
+		}
+		return "bindc (S := " + st + ") (for_loop (S " + fuelOf + ") (fun (st_ : " + st + ") => let " + tuplePat(as) + " := st_ in\n    (" +
 			b + " : ctl " + st + " " + t.resultType() + ")) " + tupleVal(as) + ")\n  (fun " + tuplePat(as) + " => " + t.stmts(rest, end) + ")"
 	}
 	init, ok1 := x.Init.(*ast.AssignStmt)
@@ -2574,7 +3056,7 @@ func constTable(p *pkgInfo, vs *ast.ValueSpec, i int) (string, bool) {
 
 // the functions translated into Pure_gen.v ("Recv.Method" for methods)
 var pureFuncs = []string{"cast", "escapeChars", "parsePath", "getSubKeyMap", "hasSubKeys", "Map.PathForKeyShortest", "valuesForKeyPath", "hasKey", "hasKeyPath", "getLeafNodes",
-	"Map.ValuesForKey", "Map.oldValuesForPath", "Map.ValuesForPath", "Map.LeafNodes", "getJson", "NewMapJsonReader", "NewMapJsonReaderRaw", "Map.Exists", "Map.ValueForPath", "Map.ValueForKey", "Map.LeafPaths", "Map.LeafValues", "valuesForArray", "Map.PathsForKey", "byteReader.ReadByte", "teeReader.ReadByte", "Maps.JsonString", "Maps.JsonStringIndent", "Maps.XmlString", "Maps.XmlStringIndent", "BeautifyXml", "Map.Copy", "Map.Json", "Map.Root", "NewMapXml", "NewMapXmlSeq", "lastKey"}
+	"Map.ValuesForKey", "Map.oldValuesForPath", "Map.ValuesForPath", "Map.LeafNodes", "getJson", "NewMapJsonReader", "NewMapJsonReaderRaw", "Map.Exists", "Map.ValueForPath", "Map.ValueForKey", "Map.LeafPaths", "Map.LeafValues", "valuesForArray", "Map.PathsForKey", "byteReader.ReadByte", "teeReader.ReadByte", "Maps.JsonString", "Maps.JsonStringIndent", "Maps.XmlString", "Maps.XmlStringIndent", "BeautifyXml", "Map.Copy", "Map.Json", "Map.Root", "NewMapXml", "NewMapXmlSeq", "lastKey", "xmlToMapParser"}
 
 func genPure(p *pkgInfo) string {
 	vars, _ := pkgVars(p)
@@ -2771,7 +3253,7 @@ func genPure(p *pkgInfo) string {
 				t.locals[obj] = lv
 				t.used[n] = 1
 				params += fmt.Sprintf(" (%s : %s)", n, fnCoqType(k))
-				if strings.HasPrefix(k, "ptr:") || (k == "bmap" && mutated[obj]) || k == "reader" {
+				if strings.HasPrefix(k, "ptr:") || (k == "bmap" && mutated[obj]) || k == "reader" || k == "xdecoder" {
 					lv.isState = true
 					t.state = append(t.state, lv)
 					if !isRecv {
